@@ -5,14 +5,14 @@ Import ListNotations.
 Open Scope nat_scope.
 
 Section T.
-Variables (courses : list course) (parts : list participant) (pick : node -> list bool -> assignment -> list node).
+Variables (courses : list course) (parts : list participant) (rgate : node -> assignment -> out (option (list node))) (pick : node -> list bool -> assignment -> list node).
 Notation np := (np parts). Notation nc := (nc courses). Notation m_ := (m_ courses). Notation n_ := (n_ courses parts).
 Notation crs := (crs courses). Notation instructs := (instructs courses).
 Hypothesis Hinstr_rng : forall c i, c < nc -> In i (c_instr (crs c)) -> i < np.
 Hypothesis Hone : forall p c c', c < nc -> c' < nc -> instructs p c = true -> instructs p c' = true -> c = c'.
 Hypothesis Hpairs : forall nd, NoDup (map fst (instr_pairs courses nd)).
 
-Theorem run_node_feasible_score nd a s : run courses parts pick nd = Val (Feasible a s) -> s = score_of courses parts a.
+Theorem run_node_feasible_score nd a s : run courses parts rgate pick nd = Val (Feasible a s) -> s = score_of courses parts a.
 Proof.
   unfold run, run_node.
   set (sx1 := skip_x1 courses parts nd). set (nsx := countB sx1). set (sy := skip_y courses nd). set (nsy := countB sy).
@@ -41,6 +41,8 @@ Proof.
   pose proof (hungarian_partial (adjacency courses parts) (dummy_x courses parts) my sx sy n_ m_ Hsq) as HP.
   destruct (hungarian (adjacency courses parts) (dummy_x courses parts) my sx sy n_ m_) as [[[[mm ms] lx] ly]| |]; try discriminate.
   destruct HP as (Hpm & Hms & _).
+  destruct (rgate nd _) as [[bs|]|site|]; try discriminate.
+  destruct (negb _ && existsb _ (seq 0 nc)); [discriminate|].
   destruct (existsb _ (seq 0 np) || existsb _ (seq 0 nc)); [discriminate|].
   intros H. inversion H; subst a s. clear H. rewrite Hms.
   apply (node_score_truthful courses parts Hinstr_rng Hone nd sx sy mm my (Hpairs nd)).
